@@ -343,4 +343,248 @@ theorem render_lex (s : List Char) : render (lex s) = s := by
   have := text_run s St.init (by intro h; simp [St.init] at h)
   simpa [lex, St.init, flush, render] using this
 
+/-! ### 2. The splitter on tokens, for EVERY token list: the kept pieces are the `;`‑delimited segments that contain
+something other than blanks and comments — in order, each up to comments / `;` / outer blanks (`essence`) -/
+
+/-- the specification: cut at every `;` (the `;` is dropped).  `acc` = current segment, reversed. -/
+def segs : List Tok → List Tok → List (List Tok)
+  | acc, [] => [acc.reverse]
+  | acc, t :: r => if isSemi t then acc.reverse :: segs [] r else segs (t :: acc) r
+
+/-- a token that is neither blank, nor comment, nor `;` -/
+def isSubst (t : Tok) : Bool := !isWhite t && !isComment t && !isSemi t
+
+private theorem dropWhile_of_all {α} {p : α → Bool} {l : List α} (h : l.all p = true) : l.dropWhile p = [] := by
+  induction l with
+  | nil => rfl
+  | cons a r ih =>
+    simp only [List.all_cons, Bool.and_eq_true] at h
+    simp [List.dropWhile_cons, h.1, ih h.2]
+
+private theorem all_of_dropWhile_nil {α} {p : α → Bool} {l : List α} (h : l.dropWhile p = []) : l.all p = true := by
+  induction l with
+  | nil => rfl
+  | cons a r ih =>
+    by_cases ha : p a = true
+    · simp [List.dropWhile_cons, ha] at h; simp [ha, ih h]
+    · simp [List.dropWhile_cons, ha] at h
+
+private theorem dropWhile_all_nil {α} {p : α → Bool} {l : List α} (h : (l.dropWhile p).all p = true) : l.dropWhile p = [] := by
+  induction l with
+  | nil => rfl
+  | cons a r ih =>
+    by_cases ha : p a = true
+    · simp only [List.dropWhile_cons, ha, if_true] at h ⊢; exact ih h
+    · simp [List.dropWhile_cons, ha] at h
+
+private theorem trimWhite_left {w x : List Tok} (h : w.all isWhite = true) : trimWhite (w ++ x) = trimWhite x := by
+  simp [trimWhite, List.dropWhile_append, dropWhile_of_all h]
+
+private theorem trimWhite_right {w x : List Tok} (h : w.all isWhite = true) : trimWhite (x ++ w) = trimWhite x := by
+  unfold trimWhite
+  rw [List.dropWhile_append]
+  by_cases he : (List.dropWhile isWhite x).isEmpty = true
+  · have : List.dropWhile isWhite x = [] := by simpa using he
+    simp [this, dropWhile_of_all h]
+  · simp only [he, if_false, Bool.false_eq_true, List.reverse_append]
+    rw [List.dropWhile_append, dropWhile_of_all (by simpa using h)]
+    simp
+
+private theorem trimWhite_nil_iff {x : List Tok} : trimWhite x = [] ↔ x.all isWhite = true := by
+  constructor
+  · intro h
+    have h1 : ((x.dropWhile isWhite).reverse.dropWhile isWhite) = [] := by simpa [trimWhite] using h
+    have h2 := all_of_dropWhile_nil h1
+    rw [List.all_reverse] at h2
+    exact all_of_dropWhile_nil (dropWhile_all_nil h2)
+  · intro h; simp [trimWhite, dropWhile_of_all h]
+
+/-- blank, comment or `;` -/
+def isNoise (t : Tok) : Bool := isWhite t || isComment t || isSemi t
+
+private theorem filter_noise_white {n : List Tok} (h : n.all isNoise = true) : (n.filter isCodeTok).all isWhite = true := by
+  rw [List.all_filter]
+  rw [List.all_eq_true] at h ⊢
+  intro t ht
+  have := h t ht
+  cases t <;> simp_all [isNoise, isCodeTok, isWhite, isComment, isSemi]
+
+private theorem essence_left {n x : List Tok} (h : n.all isNoise = true) : essence (n ++ x) = essence x := by
+  simp [essence, List.filter_append, trimWhite_left (filter_noise_white h)]
+
+private theorem essence_right {n x : List Tok} (h : n.all isNoise = true) : essence (x ++ n) = essence x := by
+  simp [essence, List.filter_append, trimWhite_right (filter_noise_white h)]
+
+private theorem essence_nil_iff {x : List Tok} : essence x = [] ↔ x.any isSubst = false := by
+  rw [essence, trimWhite_nil_iff, List.all_filter]
+  rw [List.all_eq_true, List.any_eq_false]
+  constructor
+  · intro h t ht
+    have := h t ht
+    cases t <;> simp_all [isSubst, isCodeTok, isWhite, isComment, isSemi]
+  · intro h t ht
+    have := h t ht
+    cases t <;> simp_all [isSubst, isCodeTok, isWhite, isComment, isSemi]
+
+private theorem eos_noise {e : List Tok} (h : e.all isEOS = true) : e.all isNoise = true := by
+  rw [List.all_eq_true] at h ⊢
+  intro t ht
+  have := h t ht
+  cases t <;> simp_all [isEOS, isNoise, isWhite, isComment, isSemi, isBlank]
+
+private theorem keep_cons (t : Tok) (r : List Tok) :
+    keep (t :: r) = if (!isWhite t && !isComment t) = true then !isSemi t else keep r := by
+  unfold keep
+  rw [List.find?_cons]
+  cases h : (!isWhite t && !isComment t) <;> simp
+
+/-- `keep` on a piece `x ++ ; ++ y` with no `;` in `x`: decided by `x` alone -/
+private theorem keep_semi {x y : List Tok} (hx : x.all (fun t => !isSemi t) = true) :
+    keep (x ++ .semi :: y) = x.any isSubst := by
+  induction x with
+  | nil => simp [keep_cons, isWhite, isComment, isSemi]
+  | cons t r ih =>
+    simp only [List.all_cons, Bool.and_eq_true] at hx
+    rw [List.cons_append, keep_cons, ih hx.2, List.any_cons]
+    have h1 := hx.1
+    cases h : (!isWhite t && !isComment t) <;> simp_all [isSubst]
+
+private theorem keep_nosemi {x : List Tok} (hx : x.all (fun t => !isSemi t) = true) : keep x = x.any isSubst := by
+  induction x with
+  | nil => simp [keep]
+  | cons t r ih =>
+    simp only [List.all_cons, Bool.and_eq_true] at hx
+    rw [keep_cons, ih hx.2, List.any_cons]
+    have h1 := hx.1
+    cases h : (!isWhite t && !isComment t) <;> simp_all [isSubst]
+
+def nonEmpty (e : List Tok) : Bool := !e.isEmpty
+
+/-- what a piece / a segment with substantive part `x` contributes to the answer -/
+private def contrib (x : List Tok) : List (List Tok) := if x.any isSubst = true then [essence x] else []
+
+private theorem spec_cons (x : List Tok) (rest : List (List Tok)) :
+    ((x :: rest).map essence).filter nonEmpty = contrib x ++ (rest.map essence).filter nonEmpty := by
+  by_cases h : x.any isSubst = true
+  · have : essence x ≠ [] := fun e => by rw [essence_nil_iff.mp e] at h; simp at h
+    have hne : nonEmpty (essence x) = true := by
+      cases he : essence x with
+      | nil => exact absurd he this
+      | cons a r => simp [nonEmpty]
+    simp [contrib, h, List.filter_cons, hne]
+  · have hf : x.any isSubst = false := by simpa using h
+    have : essence x = [] := essence_nil_iff.mpr hf
+    simp [contrib, hf, List.filter_cons, this, nonEmpty]
+
+private theorem noise_no_subst {n : List Tok} (h : n.all isNoise = true) : n.any isSubst = false := by
+  rw [List.all_eq_true] at h
+  rw [List.any_eq_false]
+  intro t ht
+  have := h t ht
+  cases t <;> simp_all [isNoise, isSubst, isWhite, isComment, isSemi]
+
+private theorem contrib_left {n x : List Tok} (h : n.all isNoise = true) : contrib (n ++ x) = contrib x := by
+  simp [contrib, List.any_append, noise_no_subst h, essence_left h]
+
+private theorem contrib_right {n x : List Tok} (h : n.all isNoise = true) : contrib (x ++ n) = contrib x := by
+  simp [contrib, List.any_append, noise_no_subst h, essence_right h]
+
+private theorem contrib_noise {n : List Tok} (h : n.all isNoise = true) : contrib n = [] := by
+  simp [contrib, noise_no_subst h]
+
+private theorem white_no_subst {c : List Tok} (h : c.all isWhite = true) : c.any isSubst = false := by
+  rw [List.all_eq_true] at h
+  rw [List.any_eq_false]
+  intro t ht
+  have := h t ht
+  simp_all [isSubst]
+
+private theorem filter_keep_cons (p : List Tok) (rest : List (List Tok)) :
+    ((p :: rest).filter keep).map essence = (if keep p = true then [essence p] else []) ++ (rest.filter keep).map essence := by
+  by_cases h : keep p = true <;> simp [List.filter_cons, h]
+
+private theorem go_spec (ts : List Tok) :
+    (∀ cur e : List Tok, cur.all (fun t => !isSemi t) = true → e.all isEOS = true →
+      ((go cur false ts).filter keep).map essence = ((segs (cur ++ e) ts).map essence).filter nonEmpty) ∧
+    (∀ E X : List Tok, E.all isEOS = true → X.all (fun t => !isSemi t) = true →
+      ((go (E ++ .semi :: X) true ts).filter keep).map essence
+        = contrib X.reverse ++ ((segs E ts).map essence).filter nonEmpty) := by
+  induction ts with
+  | nil =>
+    constructor
+    · intro cur e hc he
+      have hen : e.reverse.all isNoise = true := by rw [List.all_reverse]; exact eos_noise he
+      simp only [segs, spec_cons, List.map_nil, List.filter_nil, List.append_nil, List.reverse_append, contrib_left hen]
+      by_cases hw : cur.all isWhite = true
+      · have := white_no_subst hw
+        simp [go, hw, contrib, this]
+      · have hk : keep cur.reverse = cur.any isSubst := by
+          rw [keep_nosemi (by rw [List.all_reverse]; exact hc), List.any_reverse]
+        simp only [go, hw, if_false, Bool.false_eq_true, filter_keep_cons, hk, contrib, List.any_reverse]
+        simp
+    · intro E X hE hX
+      have hnw : (E ++ Tok.semi :: X).all isWhite = false := by simp [List.all_append, isWhite]
+      have hrev : (E ++ Tok.semi :: X).reverse = X.reverse ++ Tok.semi :: E.reverse := by simp
+      have hn : (Tok.semi :: E.reverse).all isNoise = true := by
+        simp only [List.all_cons, Bool.and_eq_true]; refine ⟨by simp [isNoise, isSemi], ?_⟩
+        rw [List.all_reverse]; exact eos_noise hE
+      have hk : keep (X.reverse ++ Tok.semi :: E.reverse) = X.reverse.any isSubst :=
+        keep_semi (by rw [List.all_reverse]; exact hX)
+      have hEn : E.reverse.all isNoise = true := by rw [List.all_reverse]; exact eos_noise hE
+      simp only [go, hnw, Bool.false_eq_true, if_false, hrev, filter_keep_cons, hk, essence_right hn, segs, spec_cons,
+        contrib_noise hEn]
+      simp [contrib]
+  | cons t r ih =>
+    obtain ⟨ihA, ihB⟩ := ih
+    constructor
+    · intro cur e hc he
+      by_cases hs : isSemi t = true
+      · have ht : t = .semi := by cases t <;> simp_all [isSemi]
+        subst ht
+        have hen : e.reverse.all isNoise = true := by rw [List.all_reverse]; exact eos_noise he
+        have := ihB [] cur (by simp) hc
+        simp only [List.nil_append] at this
+        simp only [go, Bool.false_and, Bool.false_eq_true, if_false, Bool.false_or, isSemi, this, segs, if_true, spec_cons,
+          List.reverse_append, contrib_left hen]
+      · have hs' : isSemi t = false := by simpa using hs
+        have := ihA (t :: cur) e (by simp [hs', hc]) he
+        simp only [go, Bool.false_and, Bool.false_eq_true, if_false, Bool.false_or, hs', segs, List.cons_append] at this ⊢
+        exact this
+    · intro E X hE hX
+      by_cases he : isEOS t = true
+      · have hs' : isSemi t = false := by cases t <;> simp_all [isEOS, isSemi]
+        have := ihB (t :: E) X (by simp [he, hE]) hX
+        simp only [go, he, Bool.not_true, Bool.and_false, Bool.false_eq_true, if_false, Bool.true_or, segs, hs',
+          List.cons_append] at this ⊢
+        exact this
+      · have he' : isEOS t = false := by simpa using he
+        have hrev : (E ++ Tok.semi :: X).reverse = X.reverse ++ Tok.semi :: E.reverse := by simp
+        have hn : (Tok.semi :: E.reverse).all isNoise = true := by
+          simp only [List.all_cons, Bool.and_eq_true]; refine ⟨by simp [isNoise, isSemi], ?_⟩
+          rw [List.all_reverse]; exact eos_noise hE
+        have hk : keep (X.reverse ++ Tok.semi :: E.reverse) = X.reverse.any isSubst :=
+          keep_semi (by rw [List.all_reverse]; exact hX)
+        have hEn : E.reverse.all isNoise = true := by rw [List.all_reverse]; exact eos_noise hE
+        have hhead : (if keep (X.reverse ++ Tok.semi :: E.reverse) = true then [essence (X.reverse ++ Tok.semi :: E.reverse)] else [])
+            = contrib X.reverse := by
+          simp [hk, essence_right hn, contrib]
+        simp only [go, he', Bool.not_false, Bool.and_true, if_true, hrev, filter_keep_cons, hhead]
+        by_cases hs : isSemi t = true
+        · have ht : t = .semi := by cases t <;> simp_all [isSemi]
+          subst ht
+          have := ihB [] [] (by simp) (by simp)
+          simp only [List.nil_append, List.reverse_nil] at this
+          rw [show contrib [] = [] by simp [contrib]] at this
+          simp only [isSemi, this, segs, if_true, spec_cons, contrib_noise hEn, List.nil_append]
+        · have hs' : isSemi t = false := by simpa using hs
+          have := ihA [t] E (by simp [hs']) hE
+          simp only [hs', this, segs, Bool.false_eq_true, if_false, List.cons_append, List.nil_append]
+
+/-- **split_spec** — for EVERY token list: the pieces `helpers.split` keeps are, in order and up to comments / `;` /
+    outer blanks, exactly the `;`‑delimited segments that contain something besides blanks and comments. -/
+theorem split_spec (ts : List Tok) :
+    (splitT ts).map essence = ((segs [] ts).map essence).filter nonEmpty := by
+  have := (go_spec ts).1 [] [] (by simp) (by simp)
+  simpa [splitT, pieces] using this
+
 end SqlLineage.Props.C05
